@@ -305,6 +305,8 @@ def _neighbours_lazy(obj, wide, depth, text):
             if len(items) > 1:
                 out.append(('%s.reorder' % a, lambda a=a: rebuild(obj, a, t(items[::-1]))))
             out.append(('%s.addkey' % a, lambda a=a: rebuild(obj, a, t(items + [('x-verif', 'v')]))))
+            # two keys in descending order: insertion order and sorted order of the names disagree whatever is there
+            out.append(('%s.addkeys-desc' % a, lambda a=a: rebuild(obj, a, t(items + [('z-verif', 'v'), ('a-verif', 'w')]))))
             continue
         for tag, nv in leaf_variants(v, wide, text=text):
             out.append(('%s=%s' % (a, tag), lambda a=a, nv=nv: rebuild(obj, a, nv)))
@@ -410,4 +412,79 @@ def seed_objects():
             for o in v:
                 if repr(canon.dump(o)) not in have:
                     out.setdefault(c, []).append(o)
+    return out
+
+
+# ---- two histories, one value: nested change by reconstruction versus by assignment in place ---------------------
+def inplace_variants(obj, wide=False, max_items=4):
+    """[(tag, rebuilt_thunk, inplace_thunk)].  The same one-field deviation of a *nested* library object (an
+    attribute value, an item of a vector attribute, an item of obj when obj is a vector) is reached
+    (a) by constructing new objects all the way up (what the neighbourhood exploration does) and
+    (b) by deep-copying obj and assigning the changed field(s) of the nested object in place.
+    Both thunks may raise a not-constructible error.  Cached sizes, memoised encodings and aliasing between a
+    container and its items make the two differ."""
+    import copy
+    from cryptoparser.common.base import ArrayBase
+
+    holders = []
+
+    def add_items(prefix, arr, get_arr, up_arr):
+        items = list(arr)
+        cls = type(arr)
+        for i, it in enumerate(items[:max_items]):
+            if is_lib_object(it) and attr.has(type(it)) and not isinstance(it, (enum.Enum, ArrayBase)):
+                holders.append(('%s[%d]' % (prefix, i), (lambda c, i=i: list.__getitem__(get_arr(c)._items, i)
+                                                         if hasattr(get_arr(c), '_items') else get_arr(c)[i]),
+                                it, lambda new, i=i: up_arr(cls(items[:i] + [new] + items[i + 1:]))))
+
+    if isinstance(obj, ArrayBase):
+        add_items('', obj, lambda c: c, lambda new_arr: new_arr)
+    else:
+        fields = _init_fields(obj)
+        for a, kw in fields or []:
+            try:
+                v = getattr(obj, a)
+            except AttributeError:
+                continue
+            if isinstance(v, ArrayBase):
+                add_items(a, v, lambda c, a=a: getattr(c, a), lambda new_arr, a=a: rebuild(obj, a, new_arr))
+            elif isinstance(v, (list, tuple)) and v and is_lib_object(v[0]):
+                seq = list(v)
+                t = type(v)
+                for i, it in enumerate(seq[:max_items]):
+                    if attr.has(type(it)) and not isinstance(it, (enum.Enum, ArrayBase)):
+                        holders.append(('%s[%d]' % (a, i), lambda c, a=a, i=i: getattr(c, a)[i], it,
+                                        lambda new, a=a, i=i, seq=seq, t=t: rebuild(obj, a, t(seq[:i] + [new] + seq[i + 1:]))))
+            elif is_lib_object(v) and attr.has(type(v)) and not isinstance(v, enum.Enum):
+                holders.append((a, lambda c, a=a: getattr(c, a), v, lambda new, a=a: rebuild(obj, a, new)))
+    out = []
+    for label, get, nested, up in holders:
+        nfields = _init_fields(nested)
+        if not nfields:
+            continue
+        try:
+            lazy = neighbours_lazy(nested, wide, 0)
+        except _not_constructible():
+            continue
+        for tag, mk in lazy:
+            def rebuilt(mk=mk, up=up):
+                return up(mk())
+
+            def inplace(mk=mk, get=get, nfields=nfields):
+                new = mk()
+                c = copy.deepcopy(obj)
+                target = get(c)
+                if type(target) is not type(new):
+                    raise TypeError('nested object changed its class')
+                for a2, _ in nfields:
+                    nv = getattr(new, a2)
+                    ov = getattr(target, a2)
+                    try:
+                        same = repr(canon.dump(nv)) == repr(canon.dump(ov))
+                    except Exception:  # noqa
+                        same = nv is ov
+                    if not same:
+                        setattr(target, a2, copy.deepcopy(nv))
+                return c
+            out.append(('%s.%s' % (label, tag), rebuilt, inplace))
     return out
